@@ -12,6 +12,7 @@ import (
 	"os"
 	"strings"
 	"sync"
+	"time"
 
 	"servitor/config"
 	"servitor/verifrt"
@@ -138,7 +139,7 @@ func tokens(s *uimodel.State, preload int) []token {
 		t("Esc", "\x1b"), t("Backspace", "\x7f"), t("NUL", "\x00"), t("LF", "\n"), t("0xC3", "\xc3"), t(".", "."), t("Enter", "\r"),
 		t(":open thread", ":open "+H+"/notes/P\r"), t(":open actor", ":open "+H+"/users/alice\r"), t(":open missing", ":open "+H+"/missing\r"),
 		t(":open empty collection", ":open "+H+"/collections/empty\r"), t(":open paged collection", ":open "+H+"/notes/P/replies\r"),
-		t(":feed f", ":feed f\r"), t(":feed nosuch", ":feed nosuch\r"), t(":x", ":x\r"), t(":x y", ":x y\r"),
+		t(":feed f", ":feed f\r"), t(":feed nosuch", ":feed nosuch\r"), t(":feed two words", ":feed two words\r"), t(":open with blanks", ":open "+H+"/missing and more\r"), t(":x", ":x\r"), t(":x y", ":x y\r"),
 		t("20 digits", "99999999999999999999"), t("0 Enter", "0\r"), t("0 .", "0."), t("1 .", "1."), t("2 .", "2."), t("1 Enter", "1\r"),
 	}
 }
@@ -230,6 +231,16 @@ func main() {
 		// stateful code do not show from the initial state
 		{"history-keys", hdepth, map[string]bool{"thread": true, "actor": true, "paged-collection": true}, historyKeys},
 	}
+	// wall-clock budget: when it is used up the search stops at the end of the level it is in,
+	// reports the levels it completed and exhaustive=false; never an alarm
+	budget := 20 * time.Minute
+	if r.Thorough() {
+		budget = 60 * time.Minute
+	}
+	if v, err := time.ParseDuration(os.Getenv("VERIF_C07_BUDGET")); err == nil && v > 0 {
+		budget = v
+	}
+	deadline := time.Now().Add(budget)
 	for _, ph := range phases {
 		depth := ph.Depth
 		tokens := ph.Tokens
@@ -246,6 +257,11 @@ func main() {
 			}
 			// the start states themselves
 			for d := 0; d <= depth && len(frontier) > 0; d++ {
+				if time.Now().After(deadline) {
+					r.Exhaustive = false
+					r.Note("budget of %s used up: phase %s at %dx%d preload %d stopped before level %d of %d", budget, ph.Name, g[0], g[1], g[2], d, depth)
+					break
+				}
 				type job struct {
 					n       node
 					tok     token
